@@ -744,13 +744,13 @@ DATA_PREFIXES = ("Tag.position", "Tag.extent", "Tag.units", "MultiTag.units", "D
 # scalar / text / entity spelling; the other respellings rotate (a random 30 of the ~150, of which a fifth apply)
 RE_CORE = ["re:" + r for r in (
     "numseq:tuple", "numseq:ndarray", "numseq:ndarray-f8", "numseq:ndarray-object", "numseq:generator", "numseq:np-ints",
-    "numseq:floats", "numseq:fractions", "numseq:sequence-class", "numseq:scalar-of-single", "numseq:nested",
+    "numseq:floats", "numseq:fractions", "numseq:sequence-class", "numseq:duck-class", "numseq:scalar-of-single", "numseq:nested",
     "num:np-int64", "num:np-float64", "num:float-of-int", "num:str", "num:0-d", "num:list-1", "num:bool",
     "str:np-str", "str:bytes", "str:list-1", "str:0-d", "str:stringy-object",
     "enum:value", "enum:name", "enum:value-upper", "enum:list-1", "enum:value-dtype",
     "dtype:np-dtype", "dtype:name", "dtype:nix-datatype", "dtype:python-type", "dtype:instance",
-    "strseq:tuple", "strseq:ndarray", "strseq:ndarray-object", "strseq:generator", "strseq:bytes", "strseq:joined",
-    "seq:tuple", "seq:generator", "seq:ndarray-object", "seq:doubled",
+    "strseq:tuple", "strseq:ndarray", "strseq:ndarray-object", "strseq:generator", "strseq:bytes", "strseq:joined", "strseq:duck-class",
+    "seq:tuple", "seq:generator", "seq:ndarray-object", "seq:doubled", "seq:duck-class",
     "ndarray:list", "ndarray:object", "ndarray:str", "ndarray:complex", "ndarray:extra-axis",
     "rows:lists", "rows:object-array", "rows:generator", "rows:np-scalars",
     "map:pairs", "map:np-dtypes", "map:type-names", "map:mapping-class",
